@@ -12,6 +12,7 @@ import RTV.Drv.DtRes
 import RTV.Drv.Span
 import RTV.Drv.UnitExtract
 import RTV.Drv.Periods
+import RTV.Drv.DtPeriod
 import RTV.Drv.Holiday
 /-! Model driver: one operation per input line (tab-separated), one answer line per operation.
 Run compiled (`.lake/build/bin/rtvdriver`) or with `lake env lean --run Driver.lean`. -/
@@ -30,6 +31,7 @@ def dispatch (line : String) : String :=
       <|> dispatchTimex op args
       <|> dispatchCal op args
       <|> dispatchPeriods op args
+      <|> dispatchDtPeriod op args
       <|> dispatchHoliday op args
       <|> dispatchDtRes op args
       <|> dispatchNum op args
